@@ -173,6 +173,13 @@ class RuntimeV1_0(Runtime):
                     events, processing_log=processing_log
                 )
 
+            # If the turn was hidden (e.g., an action failed and the internal error was
+            # reported), the turn is over. We must not continue from whatever the flows
+            # would do next on the shortened history, e.g., resume an earlier turn when
+            # the history was rebuilt from plain messages.
+            elif last_event["type"] == "hide_prev_turn":
+                next_events = [new_event_dict("Listen")]
+
             else:
                 # We need to slide all the flows based on the current event,
                 # to compute the next steps.
